@@ -1054,6 +1054,23 @@ inline bool Transport::setReadMode(SessionId sid, ReadMode mode)
       oldMode = it->second;
     }
 
+    // Bytes buffered in an earlier Sync phase are still pending when the session
+    // went e.g. Sync -> Disabled -> Async: that switch must hand them to onData
+    // too, ahead of any later arrival. Put the session back in Sync and take the
+    // flush path below, so a chunk arriving mid-flush is buffered behind them
+    // (Disabled would drop it, Async would let it overtake). A closed session's
+    // tombstone is left alone: nothing is delivered after the close.
+    if (mode == ReadMode::Async && oldMode != ReadMode::Sync)
+    {
+      auto bufIt = _impl->receiveBuffers.find(sid);
+      if (bufIt != _impl->receiveBuffers.end() && !bufIt->second->closed &&
+          !bufIt->second->data.empty())
+      {
+        _impl->readModes[sid] = ReadMode::Sync;
+        oldMode = ReadMode::Sync;
+      }
+    }
+
     // If NOT switching from Sync to Async, update mode directly
     if (!(oldMode == ReadMode::Sync && mode == ReadMode::Async))
     {
